@@ -30,7 +30,8 @@ MANIFEST = {
             'before/after the spawn, at named source lines of the executor '
             '(located by pattern at run time), while running, racing the '
             'exit and after it; run-time limits race the exit; launching '
-            'fails at each step of _handle_task.',
+            'fails at each step of _handle_task.'
+            '  Second session: endings include death by signal; launching also fails right after the spawn (run-time limit registration) and the kill command of the late cancel check can fail inside the work routine.',
     'note': 'observes real threads: a history is reproduced by seed only '
             'statistically (replay re-runs it several times); the 1 s idle '
             'sleep of the timeout watcher is shortened to 20 ms; wall clock '
